@@ -54,10 +54,13 @@ func (m *MethodScope) resolveVarNameConflict(suggested string) string {
 		}
 
 		if n == 1 {
-			conflict, _ := m.searchVar(suggested)
-			conflict.Name += "1"
+			if conflict, ok := m.searchVar(suggested); ok {
+				conflict.Name += "1"
+			}
 			m.conflicted[suggested] = true
-			n++
+			// the next number may be taken as well (ex: a parameter the
+			// user named s2), so keep checking instead of assuming it is free
+			continue
 		}
 		return suggested + strconv.Itoa(n)
 	}
